@@ -137,12 +137,24 @@ CLAIMED = {
         'design_ref': 'DESIGN.md section 5 C18; NOTES-derive.md',
         'technique': 'Coq proof on a model of the macro checks + negative/positive generated-crate correspondence through rustc',
     },
+    'C07': {
+        'category': 'proof',
+        'text': ('Kernel-checked on an instrumented transcription of the slice decoder (every with_capacity(cautious(len)), vec![0; min(len, 1 MiB)], resize and push growth recorded as allocation events; size_of a parameter supplied by the harness; '
+                 'cautious transcribed with its `as u32` truncation and division) that provably returns the same result as the decoder (C07_erasure): no panic for every type and byte string (C07_no_panic; the division needs 0 < size_of < 2^32, shown necessary by C07_hint_div0); '
+                 'cautious(len) * size_of <= max(4096, size_of) (C07_hint); the byte-loop buffer never exceeds max(min(len, 1 MiB), 2 * consumed) (C07_bulk, C07_bulk_requests); for every type of the family (collection elements take >= 1 byte on the wire or are refused as ZST) '
+                 'the largest single request, the number of element decodes and the total requested bytes are bounded by explicit constants + constants * |input| (C07_prefix_alone, C07_work, C07_alloc, C07_consumed). PARTIAL by nature: the real allocator, Vec growth policy, stack depth and aborts are runtime behaviour; '
+                 'C07_alloc\'s constant is loose for nested collections (the tight bound is checked empirically). ' + CORR + ' Counting global allocator, hostile length prefixes (0xFFFFFFFF, 2^31, 2^20+1, 2^20) at every length position, corruptions, random strings up to 64 KiB, in child processes under a memory cap; '
+                 'oracle: no panic/abort/dead child, max request and peak within stated linear bounds, elements decoded <= |input| + 1.'),
+        'design_ref': 'DESIGN.md section 5 C07; NOTES-cost.md',
+        'technique': 'Coq proof (instrumented decoder, erasure lemma, weighted-measure induction) + counting-allocator correspondence in capped child processes',
+    },
     'C08': {
         'category': 'proof',
         'text': ('Kernel-checked on a transcription of every built-in BorshSchema impl and of the derive\'s schema expansion (declaration strings, DFS order of add_definition calls, no_recursion_flag, assert on conflicting redefinition): '
-                 'the container of a type defines its root and every declaration it references and contains nothing else than the add_definition calls reachable from the type (C08_closed, C08_monotone); every primitive\'s schema width equals its wire width (C08_widths, over the table transcribed '
-                 'entry by entry). PARTIAL: the schema-only decoding statement is FALSE at full strength (C08_decodes_refuted, finding F13: two different types with one name under an equal-looking outer struct slip past the conflict assert) and its restriction to name-coherent types, '
-                 'C08_validates and the C14 agreement clause are covered by computed instances, by an implementation-side schema interpreter (the property oracle: uses only the implementation\'s container on the implementation\'s bytes) and by correspondence, not yet by general theorems. '
+                 'the container of a type defines its root and every declaration it references and contains nothing else than the add_definition calls reachable from the type (C08_closed, C08_monotone, C08_covers); every primitive\'s schema width equals its wire width (C08_widths); '
+                 'for every name-coherent type (each declaration string stands for one definition: decidable) a decoder driven ONLY by the container reads the encoding of any value completely and reconstructs names, order, tags, counts and widths (C08_decodes_partial, C08_decodes_stream); '
+                 'the container validates iff the type has no dynamically sized collection with wire-empty elements (C08_validates, C10_rust, C08_zero_sized); run-time ZST refusal and the validation verdict agree (C14_agree, C14_agree_empty, C14_agree_converse). '
+                 'The full-strength decoding statement without coherence is FALSE (C08_decodes_refuted, known finding F13). PARTIAL: generic derived items and derive acceptance are validated by generated programs. '
                  + CORR + ' for_type/validate/max_size vs the model for the 323 catalogue types with a schema and hand-written derived items; derive acceptance (F9 witness) in the C18 corpus.'),
         'design_ref': 'DESIGN.md section 5 C08; NOTES-schemaof.md',
         'technique': 'Coq proof (closure/provenance of schema_of) + schema-interpreter oracle + differential correspondence',
@@ -151,7 +163,7 @@ CLAIMED = {
         'category': 'proof',
         'text': ('Kernel-checked: writing a value with its schema and reading it back with the same type returns the logical value (C17_round_trip, both strictness settings); reading with a type whose container differs is rejected with the schema-mismatch error or an earlier '
                  'InvalidData decode error (C17_foreign); for EVERY input acceptance implies that the schema part decoded to exactly the reader\'s own container, every refusal is InvalidData, never a panic (C17_corrupt, C17_corrupt_rejected); the container codec round-trips and '
-                 'emits definitions in ascending name order (C17_container_canonical = C01 at the container\'s own wire type). Hypothesis: the container is a Rust value (names UTF-8, numbers in range, keys ascending) — decidable, true of every schema_of result exercised. '
+                 'emits definitions in ascending name order (C17_container_canonical, C17_definitions_ascending: a theorem about schema_of). Remaining hypothesis: names are UTF-8 and numbers fit their fields (container_fits, decidable, true of every schema_of result exercised). '
                  + CORR + ' Ordered pairs of types, mutated schema prefixes, arbitrary containers through the real container codec vs the model\'s and a Python encoder.'),
         'design_ref': 'DESIGN.md section 5 C17; NOTES-schemaof.md',
         'technique': 'Coq proof (C01/C05 instantiated at the container type + equality test) + differential correspondence',
